@@ -18,7 +18,7 @@ VARIABLE mon
 MaxRuns == 6
 
 NoRunMon == [span |-> 0, spanEnds |-> 0, spanStatus |-> "",
-             started |-> FALSE, stopped |-> 0, status |-> "", engineClosed |-> FALSE, descs |-> {},
+             started |-> FALSE, stopped |-> 0, status |-> "", reason |-> "", engineClosed |-> FALSE, descs |-> {},
              dmask |-> [s \in Streams |-> "none"], stale |-> {},
              next |-> [s \in Streams |-> 1],      \* the seq_num the next event of the stream must carry
              since |-> [s \in Streams |-> 0],     \* replayable events of the stream emitted since the last checkpoint-like point
@@ -49,12 +49,15 @@ MonInitVal ==
     replaying |-> FALSE,
     deferPending |-> FALSE,      \* a deferred pause was acknowledged and not yet consumed
     deferCkpt |-> FALSE,         \* ... and the checkpoint that consumes it has been executed
+    deferPaused |-> FALSE,       \* the engine has paused at that checkpoint and no new message has been executed since
     susp |-> {},                 \* futures of suspensions in effect (requested, accepted, not released)
     suspWait |-> FALSE,          \* the engine is inside the wait of a suspension
     pausedNow |-> FALSE,
     \* C11/C12/C13/C14/C15/C16/C40 bookkeeping
     genYielded |-> FALSE,        \* the main plan has just yielded: the next msg event is its message
-    planMsg |-> [cmd |-> "", obj |-> "", run |-> ""],   \* the message the main plan is waiting on
+    planMsg |-> [cmd |-> "", obj |-> "", run |-> "", a |-> ""],   \* the message the main plan is waiting on
+    curA |-> "",                 \* abstract argument (group, stream name, ...) of the message being executed
+    stPend |-> {},               \* C12: <<group, sid>> of the statuses created in this call that have not finished yet
     planRaised |-> "",           \* exception kind the main plan ended with
     devErrPending |-> FALSE,     \* a device call raised: the next plan resumption must be the throw of that error
     failPending |-> FALSE,       \* a status failed and has not been thrown into the plan yet
@@ -150,7 +153,7 @@ UpdDoc(m, e) ==
                           !.runs[ord].since[stream] = IF m.curCmd \in {"save", "collect"} /\ m.rewFlag /\ m.ckpt THEN @ + 1 ELSE @,
                           !.runs[ord].rewAtLast[stream] = m.rew]
        ELSE IF name = "stop" THEN
-            [m EXCEPT !.runs[ord].stopped = 1, !.runs[ord].status = status,
+            [m EXCEPT !.runs[ord].stopped = 1, !.runs[ord].status = status, !.runs[ord].reason = stream,   \* (a stop's stream slot = its reason class)
                       !.runs[ord].engineClosed = ~m.inObsClose, !.inObsClose = FALSE,
                       !.keyOrd = [k \in RunKeys |-> IF m.keyOrd[k] = ord THEN 0 ELSE m.keyOrd[k]]]
        ELSE m
@@ -192,9 +195,11 @@ UpdDev(m, e) ==
                                                                                      /\ \E b \in {DevBit(d)} : \E k \in 0..63 : ToString(k) = m.runs[o].dmask[sn] /\ HasBit(k, b)}]
                                     ELSE m.runs[o]]]
          [] op = "unstage" -> [m EXCEPT !.dev[d].stg = IF @ > 0 THEN @ - 1 ELSE 0]
-         [] op = "set" -> [m EXCEPT !.dev[d].dirty = TRUE, !.movedEver = @ \cup {d}]
+         [] op = "set" -> [m EXCEPT !.dev[d].dirty = TRUE, !.movedEver = @ \cup {d},
+                                   !.stPend = IF e[6] > 0 THEN @ \cup {<<m.curA, e[6]>>} ELSE @]
+         [] op \in {"trigger", "complete", "prepare"} -> [m EXCEPT !.stPend = IF e[6] > 0 THEN @ \cup {<<m.curA, e[6]>>} ELSE @]
          [] op = "stop" -> [m EXCEPT !.dev[d].dirty = FALSE, !.suspStopDue = @ \ {d}]
-         [] op = "kickoff" -> [m EXCEPT !.dev[d].fly = TRUE]
+         [] op = "kickoff" -> [m EXCEPT !.dev[d].fly = TRUE, !.stPend = IF e[6] > 0 THEN @ \cup {<<m.curA, e[6]>>} ELSE @]
          [] op = "collect" -> [m EXCEPT !.dev[d].fly = FALSE]
          [] op = "subscribe" -> [m EXCEPT !.dev[d].subs = @ + 1]
          [] op = "clear_sub" -> [m EXCEPT !.dev[d].subs = IF @ > 0 THEN @ - 1 ELSE 0]
@@ -222,8 +227,8 @@ UpdMsg(m0, e) ==
                         (mA.expectEvent = "no") = mA.gotEvent /\ ~mA.devErrPending /\ mA.planMsg.cmd = "save",
                         IF mA.gotEvent THEN "C15:event-from-empty-bundle" ELSE "C15:event-missing")
       \* C13: this is the main plan's own message if the plan has just yielded
-      mC == IF mB.genYielded THEN [mB EXCEPT !.genYielded = FALSE, !.planMsg = [cmd |-> cmd, obj |-> obj, run |-> run]] ELSE mB
-      mD == [mC EXCEPT !.curRun = run, !.curCmd = cmd]
+      mC == IF mB.genYielded THEN [mB EXCEPT !.genYielded = FALSE, !.planMsg = [cmd |-> cmd, obj |-> obj, run |-> run, a |-> a]] ELSE mB
+      mD == [mC EXCEPT !.curRun = run, !.curCmd = cmd, !.curA = a]
       \* C14: open_run bookkeeping
       mE == IF cmd = "open_run" /\ run \in RunKeys
             THEN (IF mD.keyOrd[run] # 0 THEN [mD EXCEPT !.dupOpen = TRUE] ELSE [mD EXCEPT !.pendingOpen = run, !.dupOpen = FALSE])
@@ -244,7 +249,9 @@ UpdMsg(m0, e) ==
                ELSE IF cmd \in {"rewindable", "wait_for", "_resume_from_suspender", "_start_suspender"} \/ m.suspWait THEN m
                ELSE ViolIf([m EXCEPT !.replaying = FALSE, !.expect = <<>>], ~m.c04off, "C04:replay-mismatch")
             ELSE \* not replaying: a message identity that was executed before must not come back
-                 ViolIf(m, mid <= m.maxMid /\ mid > 0 /\ ~m.c04off, "C04:unexpected-replay")
+                 \* (C09: in particular not after the pause at the checkpoint that consumed a deferred pause)
+                 ViolIf(ViolIf(m, mid <= m.maxMid /\ mid > 0 /\ ~m.c04off, "C04:unexpected-replay"),
+                        mid <= m.maxMid /\ mid > 0 /\ ~m.c04off /\ m.deferPaused, "C09:replay-after-deferred-pause")
       \* a fresh (not replayed) identity while something is still expected is caught above
       m2 == IF cmd = "rewindable" /\ a # "" THEN
                (IF (a = "T") # m1.rewFlag /\ m1.ckpt THEN SinceReset([m1 EXCEPT !.rewFlag = (a = "T"), !.since = <<>>]) ELSE [m1 EXCEPT !.rewFlag = (a = "T")])
@@ -284,7 +291,7 @@ UpdMsg(m0, e) ==
                             !.runs = [o \in 1..MaxRuns |-> IF m4.runs[o].started /\ m4.runs[o].stopped = 0 /\ m4.recIntr
                                                             THEN [m4.runs[o] EXCEPT !.intrWant = @ + 1] ELSE m4.runs[o]]]
             ELSE m4s
-  IN [m5 EXCEPT !.maxMid = IF mid > @ THEN mid ELSE @, !.lastCmd = cmd]
+  IN [m5 EXCEPT !.maxMid = IF mid > @ THEN mid ELSE @, !.lastCmd = cmd, !.deferPaused = (@ /\ mid <= m5.maxMid)]
 
 UpdGen(mIn, e) ==
   LET inp == e[2] val == e[3] react == e[4]
@@ -301,8 +308,12 @@ UpdGen(mIn, e) ==
       m3 == IF inp = "throw" /\ m3x.planMsg.cmd \in ImplicitCkptCmds THEN [m3x EXCEPT !.c04off = TRUE, !.replaying = FALSE, !.expect = <<>>] ELSE m3x
       m4x == IF inp = "send" /\ ExpectedResp(m3.planMsg) # {} /\ val \notin ExpectedResp(m3.planMsg)
              THEN Viol(m3, "C13:response-mismatch:" \o m3.planMsg.cmd) ELSE m3
+      \* C12: `wait` must not report a group done while a status of that group is still in flight (in executions without
+      \* external requests: a cancelled wait forgets its group -- KF-C13-1's neighbourhood)
+      m4w == ViolIf(m4x, inp = "send" /\ val = "bool:True" /\ m3.planMsg.cmd = "wait" /\ m3.reqs = <<>>
+                         /\ \E p \in m3.stPend : p[1] = m3.planMsg.a, "C12:wait-done-with-pending-status")
       \* C13: a message that a preprocessor dropped (the engine never saw it: no `msg` event since the yield) is answered None
-      m4 == ViolIf(m4x, inp = "send" /\ m3.genYielded /\ m3.genCmd # "" /\ m3.planMsg.cmd = "?" /\ val # "None", "C13:response-mismatch:dropped")
+      m4 == ViolIf(m4w, inp = "send" /\ m3.genYielded /\ m3.genCmd # "" /\ m3.planMsg.cmd = "?" /\ val # "None", "C13:response-mismatch:dropped")
       \* C14: a duplicate open_run must be rejected at that yield
       \* (answered with an exception: IllegalMessageSequence, or whatever interrupted the engine before it got to the message)
       m5 == IF m4.dupOpen THEN ViolIf([m4 EXCEPT !.dupOpen = FALSE], inp # "throw", "C14:duplicate-open-accepted") ELSE m4
@@ -324,7 +335,7 @@ UpdGen(mIn, e) ==
       m8 == ViolIf(m8b, inp = "send" /\ m8b.susEff # {} /\ m8b.term = {} /\ ~m8b.failedPause
                         /\ (m8b.planMsg.cmd = "" \/ m8b.suspEver),
                    IF m8b.planMsg.cmd = "" THEN "C31:plan-started-while-suspender-tripped" ELSE "C11:plan-ran-while-suspender-tripped")
-      m9 == IF react = "yield" THEN [m8 EXCEPT !.genYielded = TRUE, !.planMsg = [cmd |-> "?", obj |-> "", run |-> ""], !.genCmd = e[5]]
+      m9 == IF react = "yield" THEN [m8 EXCEPT !.genYielded = TRUE, !.planMsg = [cmd |-> "?", obj |-> "", run |-> "", a |-> ""], !.genCmd = e[5]]
             ELSE IF react = "return" THEN [m8 EXCEPT !.planDone = TRUE]
             ELSE [m8 EXCEPT !.planDone = TRUE, !.planRaised = react, !.faulty = (@ \/ react = "raise:PlanErr")]
   IN m9
@@ -373,7 +384,7 @@ UpdState(m, e) ==
       m2a == IF n = "pausing"
              THEN ViolIf([m2 EXCEPT !.hardReq = FALSE], m.deferPending /\ ~m.deferCkpt /\ ~m.hardReq, "C09:deferred-pause-not-at-checkpoint")
              ELSE m2
-      m3 == IF n = "paused" /\ m.deferCkpt THEN ViolIf([m2a EXCEPT !.deferPending = FALSE, !.deferCkpt = FALSE], m.since # <<>>, "C09:replay-after-deferred-pause")
+      m3 == IF n = "paused" /\ m.deferCkpt THEN ViolIf([m2a EXCEPT !.deferPending = FALSE, !.deferCkpt = FALSE, !.deferPaused = TRUE], m.since # <<>>, "C09:replay-after-deferred-pause")
             ELSE IF n = "pausing" /\ ~m.deferCkpt THEN [m2a EXCEPT !.deferPending = FALSE] ELSE m2a
       \* C10: never paused after an interruption in a non-resumable section
       m4 == ViolIf(m3, n = "paused" /\ m.failedPause, "C10:paused-after-failed-pause")
@@ -397,7 +408,9 @@ UpdRet(m, e, s2) ==
       allStopped == \A o \in 1..m.nruns : m.runs[o].stopped = 1
       terminated == m.term # {} \/ m.termLate # {} \/ m.failedPause
       \* (C03 is about executions that were only paused/resumed or suspended/released: not about aborted / stopped / halted ones)
-      mm0 == ViolIf(m, ~m.faulty /\ m.term = {} /\ m.termLate = {} /\ outcome \notin {"ok", "interrupted", m.expOutcome} /\ outcome # "exc:TransitionError",
+      \* C13: a call that returns hands back the uids of the runs it opened, in order (the recorder compares them: -1 = they differ)
+      mmU == ViolIf(m, e[6] < 0, "C13:returned-uids-differ")
+      mm0 == ViolIf(mmU, ~m.faulty /\ m.term = {} /\ m.termLate = {} /\ outcome \notin {"ok", "interrupted", m.expOutcome} /\ outcome # "exc:TransitionError",
                     "C03:unexpected-error")
       \* C03: an execution that was only paused/resumed or suspended/released records the same data as the uninterrupted one
       clean == m.term = {} /\ m.termLate = {} /\ ~m.failedPause /\ ~m.faulty /\ outcome = "ok" /\ st = "idle" /\ m.expData # {} /\ m.expOutcome = "ok"
@@ -445,8 +458,14 @@ UpdRet(m, e, s2) ==
                    ee == ViolIf(dd, \E o \in (m.callRuns + 1)..m.nruns :
                                       m.runs[o].engineClosed /\ m.runs[o].status \notin ExpectedStatus(m, outcome),
                                 "C02:exit-status")
+                   \* C02: a run the engine closes as failed carries the text of the exception as its reason (not nothing, not
+                   \* the reason that was handed to abort()); exceptions without a text are exempt
+                   er == ViolIf(ee, \E o \in (m.callRuns + 1)..m.nruns :
+                                      m.runs[o].engineClosed /\ m.runs[o].status = "fail" /\ m.runs[o].reason # "exc"
+                                      /\ outcome \notin {"exc:Err:ValueError", "exc:Err:AssertionError"},
+                                "C02:fail-reason")
                    \* C10: after a failed pause the call must report the interruption
-                   ff == ViolIf(ee, m.failedPause /\ op \in {"run", "resume"}
+                   ff == ViolIf(er, m.failedPause /\ op \in {"run", "resume"}
                                     /\ (outcome = "ok" \/ (outcome \notin ({"interrupted"} \cup ControlExc) /\ ~OwnErr(m, outcome))), "C10:not-reported")
                    \* C05: num_events present for every stream that has events
                    Missing(kd) == \E o \in 1..m.nruns : \E sn \in Streams :
@@ -514,13 +533,13 @@ UpdReqRet(m, e, s2) ==
 
 UpdCall(m, e, s) ==
   LET op == e[2] IN
-  IF op = "run" THEN [m EXCEPT !.movedEver = {}, !.curCmd = "", !.c04off = FALSE, !.recIntr = (e[3] = "ri"), !.genYielded = FALSE, !.planMsg = [cmd |-> "", obj |-> "", run |-> ""], !.planRaised = "",
+  IF op = "run" THEN [m EXCEPT !.movedEver = {}, !.curCmd = "", !.c04off = FALSE, !.recIntr = (e[3] = "ri"), !.genYielded = FALSE, !.planMsg = [cmd |-> "", obj |-> "", run |-> "", a |-> ""], !.stPend = {}, !.planRaised = "",
                                !.devErrPending = FALSE, !.failPending = FALSE, !.curRun = "none", !.pendingOpen = "none", !.dupOpen = FALSE,
                                !.bundle = [k \in RunKeys |-> [open |-> FALSE, mask |-> 0, n |-> 0, collide |-> FALSE]],
                                !.expectEvent = "none", !.gotEvent = FALSE, !.suspStopDue = {}, !.gotData = {},
                                !.keyOrd = [k \in RunKeys |-> 0],
                                !.term = {}, !.termLate = {}, !.failedPause = FALSE, !.failedPauseLate = FALSE, !.failedPauseSelf = FALSE, !.hardReq = FALSE, !.callRuns = m.nruns, !.deferPending = FALSE,
-                               !.deferCkpt = FALSE, !.since = <<>>, !.expect = <<>>, !.replaying = FALSE, !.ckpt = TRUE,
+                               !.deferCkpt = FALSE, !.deferPaused = FALSE, !.since = <<>>, !.expect = <<>>, !.replaying = FALSE, !.ckpt = TRUE,
                                !.susp = {}, !.suspWait = FALSE, !.suspEver = FALSE, !.pausedNow = FALSE, !.faulty = FALSE, !.lastCmd = "", !.reqs = <<>>,
                                !.planDone = FALSE,
                                !.dev = [d \in Devices |-> [@[d] EXCEPT !.lost = 0]]]
@@ -543,7 +562,8 @@ Upd(m, e, s, s2) ==
     [] k = "req" -> UpdReq(m, e, s)
     [] k = "reqret" -> UpdReqRet(m, e, s2)
     [] k = "call" -> UpdCall(m, e, s)
-    [] k = "stat" -> IF e[7] = 0 THEN [m EXCEPT !.faulty = TRUE, !.failPending = ~m.planDone, !.replaying = FALSE, !.expect = <<>>, !.c04off = TRUE] ELSE m
+    [] k = "stat" -> LET m1 == [m EXCEPT !.stPend = {p \in @ : p[2] # e[6]}] IN
+                     IF e[7] = 0 THEN [m1 EXCEPT !.faulty = TRUE, !.failPending = ~m.planDone, !.replaying = FALSE, !.expect = <<>>, !.c04off = TRUE] ELSE m1
     [] k = "dsc" -> UpdDsc(m, e)
     [] k = "cfg" -> UpdCfg(m, e)
     [] k = "dat" -> UpdDat(m, e)
@@ -562,7 +582,7 @@ MonNext == mon' = FoldEv(mon, obs', 1, S, S')
 \* ---------------------------------------------------------------------------
 C01Tags == {"C01:duplicate-uid", "C01:schema-invalid", "C01:start-order", "C01:no-run-start", "C01:second-stop", "C01:doc-after-stop", "C01:event-without-descriptor",
             "C01:run-not-stopped-at-idle"}
-C02Tags == {"C02:exit-status"}
+C02Tags == {"C02:exit-status", "C02:fail-reason"}
 C03Tags == {"C03:unexpected-error", "C03:data-point-lost", "C03:extra-data-point", "C03:data-differs"}
 C04Tags == {"C04:replay-mismatch", "C04:unexpected-replay"}
 C05Tags == {"C05:gap:bundle", "C05:gap:monitor", "C05:gap:interruptions",
@@ -578,7 +598,8 @@ C08Tags == {"C08:interrupted-but-idle", "C08:interrupted-but-paused", "C08:inter
 C09Tags == {"C09:pending-deferred-pause-not-reported", "C09:message-after-deferred-checkpoint", "C09:replay-after-deferred-pause", "C09:deferred-pause-not-at-checkpoint"}
 C10Tags == {"C10:paused-after-failed-pause", "C10:not-reported", "C10:cleanup-interrupted:self-pause", "C10:cleanup-interrupted:request"}
 C11Tags == {"C11:plan-ran-while-suspender-tripped", "C11:moved-not-stopped-at-suspension", "C11:plan-resumed-during-suspension", "C11:returned-during-suspension"}
-C12Tags == {"C12:device-error-not-delivered", "C12:status-failure-after-checkpoint", "C12:status-failure-lost", "C12:unhandled-exception-not-raised"}
+C12Tags == {"C12:device-error-not-delivered", "C12:status-failure-after-checkpoint", "C12:status-failure-lost", "C12:unhandled-exception-not-raised",
+            "C12:wait-done-with-pending-status"}
 C14Tags == {"C14:document-in-wrong-run", "C14:duplicate-open-accepted"}
 C15Tags == {"C15:event-from-empty-bundle", "C15:event-missing", "C15:colliding-read-accepted", "C15:checkpoint-inside-bundle-accepted",
             "C15:configure-inside-bundle-accepted", "C15:event-keys-differ-from-bundle", "C15:event-keys-differ-from-descriptor"}
